@@ -123,8 +123,9 @@ def assume_generic(eng, kind, tk, vi):
         if x.u is None:
             eng.assume(x != 0)
         else:
-            # complex: a generic complex number has a non-zero real part
+            # complex: a generic complex number has non-zero real and imaginary parts (both are asked by the comparison with 0)
             eng.assume(Sym(x.t) != 0)
+            eng.assume(Sym(x.u) != 0)
     for x in tk.reshape(-1):
         nz(x)
     if kind == 'spinless':
